@@ -177,38 +177,96 @@ def drivers(rep, idx, P):
     rep.count("port_member_drivers", nd)
 
 
-def plain_member_directions(rep, idx, rule):
+def plain_member_directions(rep, idx, rule, only_module=None):
     """A plain member (a signal, not an interface) that the component's own elaborate() drives is an output of the component and
     must be declared Out: an In member is driven from outside as well -- as the top-level design its conversion fails with an
-    internal DriverConflict, and connect() treats it as an input of the component."""
+    internal DriverConflict, and connect() treats it as an input of the component.  Conversely a plain member that the
+    component only *reads* (it occurs in values and guards, never as a target) is an input and must be declared In: declared
+    Out, connect() refuses the hardware that is supposed to drive it, or wires it the wrong way round."""
     n = 0
     for f in idx.all_functions():
-        if f.name != "elaborate" or f.cls is None:
+        if f.name != "elaborate" or f.cls is None or (only_module is not None and f.module.rel != only_module):
             continue
         cls = f.cls
         mem = idx.members(cls)
+        c = get_ctx(idx, f)
+        # a declaration the member evaluator cannot follow (names computed at run time): nothing is known about directions
+        dyn = [k for k in [cls] + list(idx.bases_of(cls)) if k.method("__init__") is not None and
+               any(isinstance(n_, (ast.DictComp,)) and any(isinstance(x, ast.Name) and x.id in ("In", "Out") for x in ast.walk(n_))
+                   for n_ in ast.walk(k.method("__init__").node)) and not getattr(k, "_members_evaluated", False)]
+        used = {x[2] for d_ in c.t.drivers for e in [c.norm(d_.target), c.norm(d_.value)] + [c.norm(fr[1]) for fr in d_.dsl if fr[0] in ('if', 'elif')]
+                for x in ir.walk(e) if x[0] == 'attr' and x[1] == ('name', 'self')}
+        undeclared = sorted(u for u in used if u not in mem and not u.startswith("_") and u not in ("port",))
+        if dyn and undeclared:
+            comps = [n_ for n_ in ast.walk(dyn[0].method("__init__").node) if isinstance(n_, ast.DictComp)]
+            flow = None
+            if len(comps) == 1 and isinstance(comps[0].value, ast.Call) and isinstance(comps[0].value.func, ast.Name) and \
+                    comps[0].value.func.id in ("In", "Out"):
+                flow = comps[0].value.func.id           # every member the comprehension produces has this one direction
+            assigned = {t.attr for k in [cls] + list(idx.bases_of(cls)) for fs in k.methods.values() for f_ in fs for s in ast.walk(f_.node)
+                        if isinstance(s, ast.Assign) for t in s.targets if isinstance(t, ast.Attribute) and isinstance(t.value, ast.Name) and t.value.id == "self"}
+            tgt_names = set()
+            for d_ in c.t.drivers:
+                b_ = c.norm(d_.target)
+                while b_[0] == 'sub':
+                    b_ = b_[1]
+                if b_[0] == 'attr' and b_[1] == ('name', 'self'):
+                    tgt_names.add(b_[2])
+            named = False
+            if flow is not None:
+                for u in undeclared:
+                    if u in assigned:
+                        continue                        # an ordinary attribute, not a signature member
+                    if u in tgt_names and flow == "In":
+                        rep.bad(rule, f.site, f"{cls.qual}.elaborate drives its own member {u}",
+                                f"every member {dyn[0].qual}.__init__ declares comes out of one comprehension as In(...), and the component drives `{u}`", line=comps[0].lineno)
+                        named = True
+                    elif u not in tgt_names and flow == "Out":
+                        rep.bad(rule, f.site, f"{cls.qual}.elaborate only reads its member {u}",
+                                f"every member {dyn[0].qual}.__init__ declares comes out of one comprehension as Out(...) (line {comps[0].lineno}), "
+                                f"but the component never drives `{u}` and reads it: it is an input; declared as an output, the hardware that is "
+                                "meant to drive it cannot be connected (connect() sees two outputs)", line=comps[0].lineno)
+                        named = True
+                    else:
+                        rep.ok(rule, f.site, f"{cls.qual}: member {u} has the direction elaborate() needs",
+                               f"declared {flow}(...) by the comprehension in {dyn[0].qual}.__init__", nontrivial=False)
+            if flow is None:
+                rep.unk(rule, f.site, f"{cls.qual}: directions of the members elaborate() uses",
+                        f"{dyn[0].qual}.__init__ builds the member dictionary with a comprehension the evaluator does not follow; the "
+                        f"directions of {undeclared} are not read off")
         if not mem:
             continue
-        c = get_ctx(idx, f)
-        seen = set()
+        driven, read = {}, {}
         for d in c.t.drivers:
             base = c.norm(d.target)
             while base[0] == 'sub' or (base[0] == 'call' and base[1][0] == 'attr' and base[1][2] in ('word_select', 'bit_select')):
                 base = base[1] if base[0] == 'sub' else base[1][1]
-            if not (base[0] == 'attr' and base[1] == ('name', 'self') and base[2] in mem) or base[2] in seen:
-                continue
-            decl = mem[base[2]]
+            if base[0] == 'attr' and base[1] == ('name', 'self') and base[2] in mem:
+                driven.setdefault(base[2], d)
+            for e in [c.norm(d.value)] + [c.norm(fr[1]) for fr in d.dsl if fr[0] in ('if', 'elif')]:
+                for x in ir.walk(e):
+                    if x[0] == 'attr' and x[1] == ('name', 'self') and x[2] in mem:
+                        read.setdefault(x[2], d)
+        for name in sorted(set(driven) | set(read)):
+            decl = mem[name]
             flows = {x[0] for x in decl}
             shape = decl[0][1]
             # interface-typed members are the business of the port-orientation rules
             if idx.resolve_class(shape[1] if shape[0] == 'call' else shape, cls.module, cls) is not None:
                 continue
-            seen.add(base[2])
             n += 1
-            rep.check(flows == {"Out"}, rule, f.site, f"{cls.qual}.elaborate drives its own member {base[2]}",
-                      f"`{base[2]}` is declared {'/'.join(sorted(flows))}(...) at line {decl[0][3]} but the component drives it (line {d.lineno}): "
-                      "a member the component drives is an output; declared as an input it has two drivers as soon as the component is the "
-                      "top-level design (DriverConflict, an internal error) and connect() wires it the wrong way round", line=d.lineno)
+            if name in driven:
+                d = driven[name]
+                rep.check(flows == {"Out"}, rule, f.site, f"{cls.qual}.elaborate drives its own member {name}",
+                          f"`{name}` is declared {'/'.join(sorted(flows))}(...) at line {decl[0][3]} but the component drives it (line {d.lineno}): "
+                          "a member the component drives is an output; declared as an input it has two drivers as soon as the component is the "
+                          "top-level design (DriverConflict, an internal error) and connect() wires it the wrong way round", line=d.lineno)
+            else:
+                d = read[name]
+                rep.check(flows == {"In"}, rule, f.site, f"{cls.qual}.elaborate only reads its member {name}",
+                          f"`{name}` is declared {'/'.join(sorted(flows))}(...) at line {decl[0][3]} but the component never drives it and reads it "
+                          f"(line {d.lineno}): it is an input; declared as an output, the hardware that is meant to drive it cannot be "
+                          "connected (connect() sees two outputs) or ends up driven by nothing", line=d.lineno)
     rep.count("plain_member_drivers", n)
     return n
 
